@@ -244,6 +244,8 @@ def _layered_chunk(params, lo, hi):
                 continue
             arcs = [(LAYERED[c[i]][0], LAYERED[c[i]][1], 1 + (code >> i & 1)) for i in range(k)]
             run_one(r, 6, arcs, 0, 5, 0, False)
+            if r["counters"]["hangs"] >= 2:
+                break
         if len(r["violations"]) >= 40 or r["counters"]["hangs"] >= 2:
             r["capped"] = True
             break
